@@ -56,3 +56,7 @@ add('C19', 'exploration', 'exhaustive enumeration of the flag x report-to x outc
     'For every combination of report-request flags, report-to value and routing outcome the reports handed to the convergence layer are parsed independently and compared with "requested and occurred", where occurrence is taken from the observed outcome.',
     'Administrative-record inputs are not generated; for the no-route outcome only the "only if" direction is judged.',
     'DESIGN.md section 3 C19')
+add('C06', 'exploration', 'exhaustive permutation enumeration for small fragment sets + property-based generation of fragmentations, duplicates and interleavings; interval-coverage reference model',
+    'All arrival permutations (with a duplicate at every position) of enumerated fragmentations and generated larger ones (uneven, overlapping, nested, interleaved with a look-alike bundle, fragments from the independent encoder or from the repository own fragmentation) are delivered to a real agent; application deliveries are compared with an interval-coverage model after every arrival.',
+    'Fragments of one bundle are cut from one payload and agree on the total length.',
+    'DESIGN.md section 3 C06')
